@@ -16,13 +16,14 @@ pub mod c15;
 pub mod c16;
 pub mod c17;
 pub mod c18;
+pub mod c19;
 pub mod c20;
 pub mod printing;
 
 use crate::framework::Ctx;
 use serde_json::Value as J;
 
-pub const ALL: &[&str] = &["C01", "C02", "C03", "C04", "C05", "C06", "C07", "C08", "C09", "C10", "C11", "C12", "C13", "C14", "C15", "C16", "C17", "C18", "C20"];
+pub const ALL: &[&str] = &["C01", "C02", "C03", "C04", "C05", "C06", "C07", "C08", "C09", "C10", "C11", "C12", "C13", "C14", "C15", "C16", "C17", "C18", "C19", "C20"];
 
 pub fn run(ctx: &mut Ctx) {
 	match ctx.prop {
@@ -39,6 +40,7 @@ pub fn run(ctx: &mut Ctx) {
 		"C16" => c16::run(ctx),
 		"C17" => c17::run(ctx),
 		"C18" => c18::run(ctx),
+		"C19" => c19::run(ctx),
 		"C20" => c20::run(ctx),
 		"C05" => c05::run(ctx),
 		"C06" => c06::run(ctx),
@@ -64,6 +66,7 @@ pub fn replay(prop: &str, family: &str, case: &J) -> Result<(), String> {
 		"C16" => c16::replay(family, case),
 		"C17" => c17::replay(family, case),
 		"C18" => c18::replay(family, case),
+		"C19" => c19::replay(family, case),
 		"C20" => c20::replay(family, case),
 		"C05" => c05::replay(family, case),
 		"C06" => c06::replay(family, case),
